@@ -4,8 +4,7 @@
    format the explicit integer bit J gives the case table of the Intel SDM (vol.1, table 4-? "unsupported
    double extended-precision encodings"): pseudo-denormals are loaded as normal numbers, unnormals, pseudo-NaN
    and pseudo-infinities are invalid operands and classified as NaN, as glibc does. *)
-From Coq Require Import NArith ZArith Bool.
-From Flocq Require Import IEEE754.Binary IEEE754.Bits.
+From Coq Require Import NArith Bool.
 Local Open Scope N_scope.
 
 Inductive fpclass := FpNan | FpInfinite | FpZero | FpSubnormal | FpNormal.
@@ -29,17 +28,6 @@ Definition ieee_class (eb e f : N) : fpclass :=
 
 Definition ieee_class32 (i : N) : fpclass := ieee_class 8 (field_exp 23 8 i) (field_frac 23 i).
 Definition ieee_class64 (i : N) : fpclass := ieee_class 11 (field_exp 52 11 i) (field_frac 52 i).
-
-(* class of a Flocq binary float: a finite non-zero number is subnormal iff its significand has no hidden bit *)
-Definition class_of_binary {prec emax : Z} (x : binary_float prec emax) : fpclass :=
-  match x with
-  | B754_zero _ _ _ => FpZero
-  | B754_infinity _ _ _ => FpInfinite
-  | B754_nan _ _ _ _ _ => FpNan
-  | B754_finite _ _ _ m _ _ => if (Z.pos m <? 2 ^ (prec - 1))%Z then FpSubnormal else FpNormal
-  end.
-Definition flocq_class32 (i : N) : fpclass := class_of_binary (b32_of_bits (Z.of_N i)).
-Definition flocq_class64 (i : N) : fpclass := class_of_binary (b64_of_bits (Z.of_N i)).
 
 (* x87 double extended: 64-bit significand m = J:f (J explicit integer bit, f 63 bits), se = sign:exponent(15) *)
 Definition x87_J (m : N) : N := m / 2 ^ 63.
